@@ -475,6 +475,9 @@ impl Module {
                 }
             }
             if let Body::Enum(vs) = &td.body {
+                if vs.iter().any(|v| !matches!(v.body, VBody::Unit) && v.as_type.is_some()) {
+                    out.insert("as_on_variant_with_payload".to_string());
+                }
                 if vs.iter().any(|v| matches!(v.body, VBody::Unit) && v.as_type.is_some()) {
                     out.insert("as_on_unit_variant".to_string());
                 }
